@@ -39,6 +39,14 @@ def c02_ref_k2(E):
             contexts=True, sym_coef=False, with_ref=True)
 
 
+def c02_ref_k2_full(E):
+    history(E, 2, list(OPS), _ref, contexts=True, sym_coef=False, with_ref=True)
+
+
+def c02_ref_k3_sub(E):
+    history(E, 3, SUB + ["remove_genes", "rule", "remove_metabolites"], _ref, contexts=True, sym_coef=False, with_ref=True)
+
+
 HARNESSES = [
     H("c02_inv_k1", c02_inv_k1, tiers=("thorough",), thorough=dict(max_paths=200000, time_budget=200),
       witness_every=20, bounds="every operation x all argument shapes once; invariants after the step"),
@@ -49,6 +57,11 @@ HARNESSES = [
     H("c02_ref_k2", c02_ref_k2, quick=dict(max_paths=120000, time_budget=100), thorough=dict(max_paths=2000000, time_budget=400),
       witness_every=150, bounds="all pairs from the sub-alphabet + remove_genes, rule, remove_metabolites, -=, add_metabolites(model), "
                                 "metabolite rename + enter/exit (the reference is restored at exit as C03 demands)"),
+    H("c02_ref_k2_full", c02_ref_k2_full, tiers=("thorough",), thorough=dict(max_paths=3000000, time_budget=450), witness_every=400,
+      bounds="all pairs of the full alphabet + enter/exit, reference comparison and invariants after every step (sampled when "
+             "the budget ends first)"),
+    H("c02_ref_k3_sub", c02_ref_k3_sub, tiers=("thorough",), thorough=dict(max_paths=3000000, time_budget=400), witness_every=400,
+      bounds="all triples from the sub-alphabet + remove_genes, rule, remove_metabolites + enter/exit (sampled)"),
     H("c02_inv_k2", c02_inv_k2, tiers=("thorough",), thorough=dict(max_paths=2000000, time_budget=300),
       witness_every=100, bounds="all pairs from the sub-alphabet + remove_genes, rule, remove_metabolites + enter/exit"),
 ]
